@@ -73,6 +73,15 @@ pub fn json_matches(shape: &Shape, val: &Val, j: &J) -> Result<(), String> {
                 // serde_json's Map (preserve_order off) sorts keys: match by model key text
                 for (kv, vv) in entries {
                     let mut found = false;
+                    // fast path for the one key kind used by the many-entries cases
+                    if let Val::I32(n) = kv {
+                        if let Some((ks, x)) = o.get_key_value(&n.to_string()) {
+                            if key_text_ok(*k, kv, ks, false).is_ok() {
+                                json_matches(i, vv, x)?;
+                                continue;
+                            }
+                        }
+                    }
                     for (ks, x) in o {
                         if key_text_ok(*k, kv, ks, false).is_ok() {
                             json_matches(i, vv, x)?;
